@@ -39,11 +39,12 @@ RULE = ('cases = (filter curve, SED frequency grid[, small per-file SED package]
 REQUIRED_BRANCHES = ['filter_increasing_nu', 'filter_decreasing_nu', 'sed_increasing', 'sed_decreasing',
                      'partial_overlap', 'full_overlap', 'edge_on_node', 'from_file', 'nonzero_edges',
                      'package', 'package_same_ends_other_interior', 'package_files', 'package_cube_memmap_on',
-                     'package_cube_memmap_off', 'package_unit_mJy', 'package_unit_Jy', 'package_unit_cgs',
+                     'package_cube_memmap_off', 'package_unit_mJy', 'package_unit_Jy', 'package_unit_cgs', 'package_unit_MJy', 'package_unit_kJy',
+                     'package_unit_uJy', 'package_unit_nJy', 'package_unit_W/m2/Hz', 'package_error_unit_MJy',
                      'grid_unit_Hz', 'grid_unit_GHz', 'grid_unit_THz', 'filter_nu_unit_Hz', 'filter_nu_unit_GHz',
                      'filter_nu_unit_THz', 'file_wav_increasing', 'file_wav_decreasing',
                      'file_asymmetric', 'response_dtype_f8', 'response_dtype_f4', 'response_dtype_i8', 'response_dtype_i4', 'low_frequency_filter',
-                     'integer_response_low_frequency', 'package_cube_error_unit_differs', 'package_files_error_unit_differs', 'integ_generic', 'integ_swapped', 'integ_equal_inside', 'integ_equal_knot', 'integ_equal_first_end',
+                     'integer_response_low_frequency', 'package_cube_error_unit_differs', 'package_files_error_unit_differs', 'shared_arrays', 'shared_arrays_f8', 'shared_arrays_readonly', 'shared_response_readonly', 'integ_generic', 'integ_swapped', 'integ_equal_inside', 'integ_equal_knot', 'integ_equal_first_end',
                      'integ_equal_last_end', 'integ_table_ends', 'integ_table_ends_swapped', 'integ_both_knots',
                      'integ_end_to_inside', 'integ_inside_to_end', 'integ_knot_to_inside', 'integ_decreasing_storage',
                      'integ_increasing_storage', 'package_seds_gz', 'package_seds_subdir', 'package_seds_subdir_1', 'package_seds_subdir_2',
@@ -58,6 +59,8 @@ ASSUMPTIONS = ['IEEE rounding is not modelled: responses compared within 1e-9 of
                'in-memory filters may hold their response samples as int64 / int32 / float32 / float64; the model gets the exact '
                'stored values; for float32 samples the unchanged code interpolates and sums in single precision (observed up to '
                '3e-8 of sum|R|), so those curves and their convolved fluxes are compared within 1e-6',
+               'Filter.normalize needs a writable response array: integrate() replaces NaNs in place, which numpy refuses on a '
+               'read-only array even without NaNs (ValueError on the unchanged tree); read-only responses are only re-binned',
                'a filter whose responses are all zero re-bins to zeros (checked, not normalised); Filter.normalize of such a '
                'filter is 0/0 (NaN responses on the unchanged tree) and is outside the quantifier',
                'cube packages hold spectral flux densities (Jy, mJy): _convolve_model_dir_2 scales with val.unit.to(mJy), which '
@@ -77,6 +80,11 @@ R_DTYPES = {'f8': np.float64, 'f4': np.float32, 'i8': np.int64, 'i4': np.int32}
 # (eps = 2**-23), so those curves are compared within 1e-6 instead of 1e-9
 TOL_R = {'f8': 1e-9, 'f4': 1e-6, 'i8': 1e-9, 'i4': 1e-9}
 FLUX_UNITS = ['mJy', 'Jy', 'cgs']      # units the SED files of a package may be stored in
+# further spectral-flux-density units, among them strings that differ from another unit only by case (MJy / mJy):
+# value of one unit in mJy, exactly
+FNU_IN_MJY = {'mJy': Fraction(1), 'Jy': Fraction(10 ** 3), 'MJy': Fraction(10 ** 9), 'kJy': Fraction(10 ** 6),
+              'uJy': Fraction(1, 10 ** 3), 'nJy': Fraction(1, 10 ** 6), 'W/m2/Hz': Fraction(10 ** 29)}
+FNU_UNITS = list(FNU_IN_MJY)
 
 
 # ----------------------------------------------------------------------------- generation
@@ -294,7 +302,12 @@ def respace(rng, wav, how):
     return out if all(out[k] < out[k + 1] for k in range(n - 1)) else list(wav)
 
 
-def gen_package(rng, nodes, hetero=None, fmt=None, fine=False):
+def unit_level(unit):
+    """about 1 mJy expressed in `unit`"""
+    return 1e-12 if unit == 'cgs' else float(1 / FNU_IN_MJY[unit])
+
+
+def gen_package(rng, nodes, hetero=None, fmt=None, fine=False, unit=None):
     """small per-file package whose wavelength grid(s) overlap the filter.  `hetero`: consecutive models
     (in file-listing order) get grids with the same length and end points but different interior points,
     and sometimes a grid of another length, so that the filters have to be re-binned between models"""
@@ -334,14 +347,14 @@ def gen_package(rng, nodes, hetero=None, fmt=None, fine=False):
         wavs = [list(wavs[0]) for _ in range(nm)]
     # stored flux unit: per-file SEDs are read with unit_flux=mJy (any supported unit); a cube is scaled by
     # val.unit.to(mJy) (spectral flux densities only)
-    unit = rng.choice(['mJy', 'Jy'] if fmt == 'cube' else ['mJy', 'mJy', 'Jy', 'cgs'])
-    level = nice(rng, 1e-3, 1e3, 2) * {'mJy': 1., 'Jy': 1e-3, 'cgs': 1e-12}[unit]
+    unit = unit or rng.choice(['mJy', 'Jy'] + FNU_UNITS if fmt == 'cube' else ['mJy', 'mJy', 'Jy', 'cgs'] + FNU_UNITS)
+    level = nice(rng, 1e-3, 1e3, 2) * unit_level(unit)
     flux = [[[float('%.4g' % (level * rng.uniform(0.1, 10.))) for _ in wavs[k]] for _ in range(nap)] for k in range(nm)]
     err = [[[float('%.3g' % (f * rng.uniform(0.01, 0.5))) for f in row] for row in mod] for mod in flux]
     # the uncertainties carry their own unit (cube: UNCERTAINTIES BUNIT; per-file: TOTAL_FLUX_ERR column unit)
-    unit_err = unit if rng.random() < 0.5 else rng.choice([k for k in (['mJy', 'Jy'] if fmt == 'cube' else FLUX_UNITS) if k != unit])
+    unit_err = unit if rng.random() < 0.5 else rng.choice([k for k in (FNU_UNITS if fmt == 'cube' else FLUX_UNITS + FNU_UNITS[2:]) if k != unit])
     if unit_err != unit:
-        elevel = nice(rng, 1e-4, 1e2, 2) * {'mJy': 1., 'Jy': 1e-3, 'cgs': 1e-12}[unit_err]
+        elevel = nice(rng, 1e-4, 1e2, 2) * unit_level(unit_err)
         err = [[[float('%.3g' % (elevel * rng.uniform(0.1, 10.))) for _ in row] for row in mod] for mod in flux]
     # model names: a common prefix (m00, m01, ...) or distinct first characters; per-file SEDs may live in
     # seds/<first k characters of the name>/ (length_subdir = k, the layout of the published grids)
@@ -424,6 +437,9 @@ DIRECTED_DTYPE = [
     ('f4', True, True, 'partial_high', 'cube'), ('f8', True, False, 'cover_fine', True),
     ('f8', True, True, 'cover_tight', 'cube'),
 ]
+# packages stored in flux-density units whose FITS strings differ from another unit only by case, and in other prefixes
+DIRECTED_UNITS = [('MJy', True), ('MJy', 'cube'), ('kJy', True), ('uJy', 'cube'), ('nJy', True), ('W/m2/Hz', 'cube'),
+                  ('MJy', 'hetero'), ('W/m2/Hz', True)]
 HIST_OPS = ['normalize', 'assign_response', 'assign_response', 'assign_both', 'grid']
 HIST_DIRECTED = [['normalize'], ['assign_response', 'normalize'], ['assign_both'], ['grid', 'assign_response'], [],
                  ['normalize', 'grid'], ['assign_both', 'normalize', 'assign_response']]
@@ -450,7 +466,7 @@ def gen_step(rng, op, flt, nodes):
     return dict(op=op)
 
 
-def gen_case(rng, directed=None, small=False, hist=None, notch=None, r_dtype=None, lowfreq=None):
+def gen_case(rng, directed=None, small=False, hist=None, notch=None, r_dtype=None, lowfreq=None, pkg_unit=None):
     if directed:
         mode, forder, zero, norm, gkind, gorder, with_pkg = directed
         n = rng.choice([2, 3, 5, 9]) if small else None
@@ -475,13 +491,17 @@ def gen_case(rng, directed=None, small=False, hist=None, notch=None, r_dtype=Non
         grid = [float(repr(g / FREQ_FACTOR[grid_unit])) for g in grid]
     case = dict(kind=gkind, filter=flt, grid=grid, grid_unit=grid_unit, package=None,
                 integ_fracs=[round(rng.uniform(0.01, 0.99), 3), round(rng.uniform(0.01, 0.99), 3)])
+    if mode == 'nu' and any(r > 0 for r in flt['r']) and (directed or rng.random() < 0.35):
+        # several Filter objects built from the SAME numpy arrays (response, nu) on different frequency grids
+        fac = rng.choice([1.37, 0.61, 2.5])
+        case['shared'] = dict(x2=[float('%.7g' % (x * fac)) for x in flt['x']], readonly=bool(rng.random() < 0.4), readonly_r=bool(rng.random() < 0.4))
     if hist is None:
         hist = [rng.choice(HIST_OPS) for _ in range(rng.choice([0, 1, 1, 2, 3]))]
     case['history'] = [gen_step(rng, op, flt, nodes) for op in hist]
     if with_pkg:
         case['package'] = gen_package(rng, nodes, hetero=True if with_pkg == 'hetero' else (False if directed else None),
                                       fmt='cube' if with_pkg == 'cube' else ('files' if directed else None),
-                                      fine=bool(notch))
+                                      fine=bool(notch), unit=pkg_unit)
     return case
 
 
@@ -501,6 +521,11 @@ def gen_cases(seed, tier):
             dt, lf, norm, gk, pkgf = DIRECTED_DTYPE[k]
             yield gen_case(rng, ('nu', ['inc', 'dec'][k % 2], bool(k % 3 == 0), norm, gk, ['inc', 'dec'][(k // 2) % 2], pkgf),
                            hist=[[], ['grid'], ['normalize']][k % 3], r_dtype=dt, lowfreq=lf)
+        elif i < 2 * len(DIRECTED) + len(DIRECTED_NOTCH) + len(DIRECTED_DTYPE) + len(DIRECTED_UNITS):
+            k = i - 2 * len(DIRECTED) - len(DIRECTED_NOTCH) - len(DIRECTED_DTYPE)
+            un, pkgf = DIRECTED_UNITS[k]
+            yield gen_case(rng, (['nu', 'wav', 'file'][k % 3], ['inc', 'dec'][k % 2], False, bool(k % 2), 'cover_fine',
+                                 'inc', pkgf), hist=[], pkg_unit=un)
         else:
             yield gen_case(rng)
 
@@ -764,6 +789,79 @@ def check_integ(cur, fracs, drv, branches):
     return None
 
 
+def shared_arrays_stage(case, drv, branches):
+    """Filters A, B, C built from the same response array object (A and C also from the same frequency Quantity, B on
+    another grid), normalised and re-binned in turn; every rebin is compared with the model for that filter's own curve
+    and the caller's arrays must come out bit-identical"""
+    from astropy import units as u
+    from sedfitter.filter import Filter
+    sh = case.get('shared')
+    flt = case['filter']
+    if not sh or flt['mode'] != 'nu':
+        return None
+    unit = freq_unit(flt.get('nu_unit', 'Hz'))
+    r_arr = np.array(flt['r'], dtype=R_DTYPES[flt.get('r_dtype', 'f8')])
+    x_a = np.array(flt['x'], dtype=float)
+    x_b = np.array(sh['x2'], dtype=float)
+    if sh.get('readonly'):
+        # read-only frequency arrays; a read-only RESPONSE array can be re-binned but not normalised on the unchanged
+        # tree (integrate() fixes NaNs in place, `y[isnan(y)] = 0.`, which numpy refuses on a read-only array even when
+        # there is nothing to fix), so with a read-only response the normalize steps are left out
+        x_a.setflags(write=False)
+        x_b.setflags(write=False)
+        branches.add('shared_arrays_readonly')
+        if sh.get('readonly_r'):
+            r_arr.setflags(write=False)
+            branches.add('shared_response_readonly')
+    before = (r_arr.tobytes(), x_a.tobytes(), x_b.tobytes())
+    q_a = u.Quantity(x_a, unit, copy=False)
+    q_b = u.Quantity(x_b, unit, copy=False)
+    cw = flt['central'] * u.micron
+    rd = flt.get('r_dtype', 'f8')
+    curs = {'A': dict(mode='nu', nus=to_hz(flt['x'], flt.get('nu_unit', 'Hz')), r=list(flt['r']), normalize=False, r_dtype=rd),
+            'B': dict(mode='nu', nus=to_hz(sh['x2'], flt.get('nu_unit', 'Hz')), r=list(flt['r']), normalize=False, r_dtype=rd)}
+    curs['C'] = dict(curs['A'])
+    grids = {'A': (case['grid'], case.get('grid_unit', 'Hz')), 'C': (case['grid'], case.get('grid_unit', 'Hz'))}
+    lo, hi = min(curs['B']['nus']), max(curs['B']['nus'])
+    grids['B'] = ([float('%.7g' % (lo - 0.3 * (hi - lo) + k * 1.6 * (hi - lo) / 11.)) for k in range(12)
+                   if lo - 0.3 * (hi - lo) + k * 1.6 * (hi - lo) / 11. > 0], 'Hz')
+    try:
+        with common.quiet():
+            fs = {'A': Filter(name='A', central_wavelength=cw, nu=q_a, response=r_arr),
+                  'B': Filter(name='B', central_wavelength=cw, nu=q_b, response=r_arr),
+                  'C': Filter(name='C', central_wavelength=cw, nu=q_a, response=r_arr)}
+    except Exception as e:
+        return CaseResult(False, violates=True, detail='building filters from shared arrays raised %s: %s' % (type(e).__name__, e))
+    done = []
+    for op, key in (('rebin', 'A'), ('normalize', 'A'), ('rebin', 'A'), ('rebin', 'C'), ('normalize', 'B'), ('rebin', 'B'),
+                    ('rebin', 'A'), ('normalize', 'C'), ('rebin', 'C'), ('rebin', 'A'), ('rebin', 'B')):
+        done.append('%s(%s)' % (op, key))
+        if op == 'normalize' and sh.get('readonly') and sh.get('readonly_r'):
+            continue
+        if op == 'normalize':
+            try:
+                with common.quiet():
+                    fs[key].normalize()
+            except Exception as e:
+                return CaseResult(False, violates=True,
+                                  detail='filters sharing their arrays, %s: raised %s: %s' % (' '.join(done), type(e).__name__, e))
+            curs[key] = dict(curs[key], normalize=True)
+            continue
+        bad, _, _ = check_rebin(fs[key], curs[key], grids[key][0], grids[key][1], drv,
+                                'three filters built from the same response array (A, C same nu; B another grid), after %s'
+                                % ' '.join(done))
+        if bad is not None:
+            return bad
+    after = (r_arr.tobytes(), x_a.tobytes(), x_b.tobytes())
+    if after != before:
+        which = [n for n, a, b in zip(('response', 'nu of A/C', 'nu of B'), after, before) if a != b]
+        return CaseResult(False, violates=True,
+                          detail='the caller\'s %s array was modified by normalize / rebin of filters built from it' % ', '.join(which))
+    branches.add('shared_arrays')
+    branches.add('shared_arrays_' + rd)
+    return None
+
+
 def apply_filter_step(f, step, cur):
     """one change of the SAME Filter object through its public attributes; returns the curve it holds afterwards"""
     from astropy import units as u
@@ -839,6 +937,10 @@ def run_case(case):
             if bad is not None:
                 bad.branches = sorted(branches)
                 return bad
+        bad = shared_arrays_stage(case, drv, branches)
+        if bad is not None:
+            bad.branches = sorted(branches)
+            return bad
         # ---- observable 2: convolved fluxes of a package, with the filter as it is now
         pkg = case.get('package')
         if pkg:
@@ -850,6 +952,7 @@ def run_case(case):
             branches.add('package_cube_memmap_%s' % ('on' if pkg.get('memmap') else 'off') if pkg.get('fmt') == 'cube'
                          else 'package_files')
             branches.add('package_unit_' + pkg.get('unit', 'mJy'))
+            branches.add('package_error_unit_' + pkg.get('unit_err', pkg.get('unit', 'mJy')))
             if pkg.get('unit_err', pkg.get('unit', 'mJy')) != pkg.get('unit', 'mJy'):
                 branches.add('package_%s_error_unit_differs' % ('cube' if pkg.get('fmt') == 'cube' else 'files'))
             if any(pkg.get('gz') or []):
@@ -889,6 +992,8 @@ def to_hz_wav(wav_um):
 
 def in_mjy(vals, nus, unit):
     """stored values in mJy, exactly (F_nu = F / nu; 1 mJy = 1e-26 erg/cm^2/s/Hz; 1 Jy = 1000 mJy)"""
+    if unit in FNU_IN_MJY:
+        return [Fraction(float(v)) * FNU_IN_MJY[unit] for v in vals]
     if unit == 'mJy':
         return [Fraction(float(v)) for v in vals]
     if unit == 'Jy':
@@ -950,7 +1055,8 @@ def run_package(case, f, flt, nus_held, d, drv):
     nap = len(pkg['flux'][0])
     unit = pkg.get('unit', 'mJy')
     unit_err = pkg.get('unit_err', unit)
-    AU = {'mJy': u.mJy, 'Jy': u.Jy, 'cgs': u.erg / u.cm ** 2 / u.s}
+    AU = {'mJy': u.mJy, 'Jy': u.Jy, 'cgs': u.erg / u.cm ** 2 / u.s, 'MJy': u.MJy, 'kJy': u.kJy, 'uJy': u.uJy,
+          'nJy': u.nJy, 'W/m2/Hz': u.W / u.m ** 2 / u.Hz}
     aunit = AU[unit]
     cube = pkg.get('fmt') == 'cube'
     axes = pkg.get('axes', 'wav_only' if cube else 'both')
